@@ -187,7 +187,20 @@ func init() {
 			case "otp":
 				prof.BootstrapOTP = bootstrapOTPData{ExpiresAt: time.Now().Add(time.Hour), Sha512Hash: []byte(fmt.Sprintf("hash-%d-0123456789", st.N))}
 			}
-			if err := w.state.SaveUserProfile(st.User, prof); err != nil {
+			if strings.HasPrefix(st.C, "fault:") {
+				// the k-th driver call of this save fails (disk / connection error at that statement, COMMIT included)
+				var k int
+				fmt.Sscanf(st.C, "fault:%d", &k)
+				w.primary.arm("error", k)
+			}
+			err = w.state.SaveUserProfile(st.User, prof)
+			if strings.HasPrefix(st.C, "fault:") {
+				if fired, _ := w.primary.disarm(); fired {
+					w.fault("db.stmt.error")
+					w.probe("save-fault-fired")
+				}
+			}
+			if err != nil {
 				w.logf("st_save error %v", err)
 				return
 			}
@@ -322,6 +335,9 @@ func init() {
 		case "new_bootstrap":
 			ck = map[string]string{authCookieName: w.setupCookie("root")}
 			r = &vfReq{Method: "POST", Path: "/admin/newBoostrapOTP", Form: url.Values{"username": {st.User}}}
+		case "login":
+			ck = map[string]string{}
+			r = &vfReq{Method: "POST", Path: "/api/v0/login", Form: url.Values{"username": {st.User}, "password": {w.dirsim.Password[st.User]}}}
 		default:
 			return nil
 		}
@@ -333,19 +349,27 @@ func init() {
 			// the outage ends in the middle of this request: its first calls find the primary unreachable, later ones succeed
 			before = w.dbDigest()
 			w.fault("db.primary.down.partial")
-			if st.N%2 == 0 {
+			switch {
+			case st.A == "login":
+				// every read of this request times out; its writes would get through
+				w.primary.setReadsDown(2500 * time.Millisecond)
+			case st.N%2 == 0:
 				w.primary.setDownCalls(1+int(st.N)%3, 2500*time.Millisecond)
-			} else {
+			default:
 				w.primary.setDownCalls(1+int(st.N)%3, time.Millisecond)
 			}
 		}
 		p.after = func(resp *vfResp) {
 			if before != "" {
 				w.primary.setDownCalls(0, 0)
+				w.primary.setReadsDown(0)
 				time.Sleep(3 * time.Second)
 				synctest.Wait()
 				w.probe("mutation-across-outage-end")
-				if after := w.dbDigest(); resp.Code >= 400 && after != before {
+				if after := w.dbDigest(); st.A == "login" && after != before && w.cacheReadSeen() {
+					w.violate("C15", "write-after-cached-read", "write-after-cached-read:login",
+						fmt.Sprintf("a login whose profile read was served from the cache (primary unreachable) changed the primary's content (status %d)", resp.Code))
+				} else if resp.Code >= 400 && after != before {
 					w.violate("C15", "write-by-refused-request", "write-by-refused-request:"+st.A,
 						fmt.Sprintf("%s %s was refused (%d) because the primary was unreachable when it was read, yet the primary's content changed", st.A, st.B, resp.Code))
 				}
@@ -506,23 +530,43 @@ func genStoragePlan(r *rand.Rand, tier string) *vfPlan {
 			add(vfStep{Op: "setup_u2f", User: u, Target: fmt.Sprintf("tok%d", tok)})
 		}
 	}
-	if chance(r, 0.35) {
+	if chance(r, 0.45) {
 		// outage scenario
+		ldap := chance(r, 0.35)
+		if ldap {
+			// passwords come from a directory; its verdicts are kept as signed records, which the cache must serve too
+			p.Cfg.PwBackend, p.Cfg.LDAPServers = "ldap", 1
+			for _, u := range []string{"alice", "bob", "mallory"} {
+				add(vfStep{Op: "login", Sess: "pre-" + u, User: u, B: "form"})
+			}
+		}
+		selfService := !ldap && chance(r, 0.6)
+		if selfService {
+			p.Cfg.SelfService, p.Cfg.Email = true, true
+			add(vfStep{Op: "st_save", User: "gadmin", A: "rename", N: 1}) // an account with a profile and no second factor
+		}
 		add(vfStep{Op: "sync"})
 		if chance(r, 0.5) {
 			add(vfStep{Op: "st_save", User: pick(r, vfStorageUsers), A: "rename", N: int64(r.IntN(100))})
 		}
-		if chance(r, 0.3) {
+		if chance(r, 0.4) {
 			// no standing outage: single requests during which a short outage ends
 			for i := 0; i < 3+r.IntN(5); i++ {
 				u := pick(r, []string{"alice", "bob", "mallory"})
 				a := pick(r, []string{"manage_totp", "manage_u2f", "manage_u2f", "totp_new", "u2f_regreq", "add_user", "delete_user", "new_bootstrap"})
+				if selfService && chance(r, 0.5) {
+					u = "gadmin"
+					a = "login" // a password login of a user without second factor: may mail a self-service bootstrap OTP - not from a cached profile
+				}
 				add(vfStep{Op: "mutate", User: u, A: a, B: pick(r, []string{"Disable", "Enable", "Delete", "Update"}), N: int64(r.IntN(12)), C: "midheal"})
 			}
 			add(vfStep{Op: "sync"})
 			return p
 		}
 		add(vfStep{Op: "outage", A: pick(r, []string{"", "", "fast"})})
+		if ldap {
+			add(vfStep{Op: "dir_server", N: 1, A: pick(r, []string{"down", "refuse", "error"})})
+		}
 		n := 3 + r.IntN(6)
 		for i := 0; i < n; i++ {
 			u := pick(r, []string{"alice", "bob", "mallory"})
@@ -543,7 +587,11 @@ func genStoragePlan(r *rand.Rand, tier string) *vfPlan {
 		u := pick(r, vfStorageUsers)
 		switch x := r.IntN(100); {
 		case x < 30:
-			add(vfStep{Op: "st_save", User: u, A: pick(r, []string{"", "toggle", "rename", "otp"}), N: int64(r.IntN(1000))})
+			sv := vfStep{Op: "st_save", User: u, A: pick(r, []string{"", "toggle", "rename", "otp"}), N: int64(r.IntN(1000))}
+			if chance(r, 0.25) {
+				sv.C = fmt.Sprintf("fault:%d", 1+r.IntN(7))
+			}
+			add(sv)
 		case x < 42:
 			add(vfStep{Op: "st_delete", User: u})
 		case x < 58:
@@ -568,8 +616,20 @@ func genStoragePlan(r *rand.Rand, tier string) *vfPlan {
 
 // expandStorageFaults: for every sync of the base history, every call position
 // on cache and primary x {error, crash}
+// did a call of the running request find the primary unreachable (the short outage really hit it)?
+func (w *vfWorld) cacheReadSeen() bool {
+	w.primary.mu.Lock()
+	defer w.primary.mu.Unlock()
+	return w.primary.downHits > 0
+}
+
 func expandStorageFaults(base *vfPlan, res *vfResult) []*vfPlan {
 	var out []*vfPlan
+	for _, st := range base.Steps {
+		if st.Op == "outage" || st.C == "midheal" {
+			return nil // outage histories are about the outage; synchronisation faults are enumerated on the others
+		}
+	}
 	si := 0
 	for i, st := range base.Steps {
 		if st.Op != "sync" {
